@@ -497,6 +497,40 @@ def h_launch_fd_balance(i):
             "expected": {"after_5_failed_launches": before, "errors": ["OSError"] * 5}}
 
 
+def h_cancelled_pending_future(i):
+    """F8: the real terminate_broken / flag_executor_shutting_down on a manager whose pending table holds a future its owner has
+    cancelled (real Future objects, real method bodies; only kill_workers / join_executor_internals are recorded instead of run)."""
+    import threading
+    from loky import process_executor as pe
+    from loky._base import Future
+    mode = i.get("mode", "terminate_broken")
+    m = object.__new__(pe._ExecutorManagerThread)
+    m.executor_flags = pe._ExecutorFlags(threading.Lock())
+    m.executor_flags.kill_workers = True
+    m.pending_work_items = {k: pe._WorkItem(Future(), print, (), {}) for k in range(5)}
+    m.running_work_items = []
+    m.processes = {}
+    calls = []
+    m.kill_workers = lambda *a, **k: calls.append("kill_workers")
+    m.join_executor_internals = lambda *a, **k: calls.append("join_executor_internals")
+    futs = [w.future for w in m.pending_work_items.values()]
+    cancelled = futs[1].cancel()
+    escaped = None
+    try:
+        if mode == "terminate_broken":
+            m.terminate_broken(pe.BrokenProcessPool("worker died"))
+        else:
+            m.flag_executor_shutting_down()
+    except BaseException as e:
+        escaped = type(e).__name__
+    unresolved = [k for k, f in enumerate(futs) if not f.done()]
+    ok = escaped is None and not unresolved and (mode != "terminate_broken" or calls == ["kill_workers", "join_executor_internals"])
+    return {"reproduced": not ok, "mode": mode,
+            "observed": {"cancelled_by_owner": [1] if cancelled else [], "escaped": escaped, "unresolved_futures": unresolved, "calls": calls,
+                         "still_pending_in_table": len(m.pending_work_items)},
+            "expected": {"escaped": None, "unresolved_futures": [], "still_pending_in_table": 0}}
+
+
 def main():
     name, inputs, repo = sys.argv[1], json.loads(sys.argv[2]), sys.argv[3]
     sys.path.insert(0, repo)
